@@ -11,6 +11,16 @@ MH = os.path.join(HARNESS_TARGET, "debug", "mh")
 DRIVER = os.path.join(COQ, "extract", "driver")
 EVIDENCE = os.path.join(VERIF, "evidence")
 REPLAYS = os.path.join(VERIF, "replays")
+if REPO != "/repo":
+    # experiments against a scratch copy of the repository (VERIF_REPO): a copy of the harness crate that depends
+    # on that copy, its own build directory, and evidence kept away from the registered evidence files
+    _tag = hashlib.sha256(REPO.encode()).hexdigest()[:8]
+    HARNESS_SRC = HARNESS_DIR
+    HARNESS_DIR = os.path.join(CACHE, "harness-alt-" + _tag)
+    HARNESS_TARGET = os.path.join(CACHE, "harness-alt-target-" + _tag)
+    MH = os.path.join(HARNESS_TARGET, "debug", "mh")
+    EVIDENCE = os.path.join(CACHE, "alt-evidence-" + _tag)
+    REPLAYS = os.path.join(CACHE, "alt-replays-" + _tag)
 NCPU = os.cpu_count() or 4
 
 FORBIDDEN = re.compile(r"\b(Admitted|admit|Axiom|Parameter|Conjecture|Unset Guard|bypass_check|Admit Obligations)\b|type-in-type|impredicative-set")
@@ -57,6 +67,13 @@ class BuildError(Exception):
 def build_harness(log):
     """(Re)build the harness against /repo's current working tree with hooks enabled."""
     t = time.time()
+    if REPO != "/repo":
+        os.makedirs(HARNESS_DIR, exist_ok=True)
+        shutil.copytree(os.path.join(HARNESS_SRC, "src"), os.path.join(HARNESS_DIR, "src"), dirs_exist_ok=True)
+        toml = open(os.path.join(HARNESS_SRC, "Cargo.toml")).read().replace('path = "/repo"', f'path = "{REPO}"')
+        tp = os.path.join(HARNESS_DIR, "Cargo.toml")
+        if not os.path.exists(tp) or open(tp).read() != toml:
+            open(tp, "w").write(toml)
     lock = os.path.join(HARNESS_DIR, "Cargo.lock")
     if not os.path.exists(lock):
         shutil.copy(os.path.join(REPO, "Cargo.lock"), lock)
